@@ -194,12 +194,14 @@ def c13_r2(ctx):
             if isinstance(v, ast.Name):
                 # the last assignment to that name before the call is  v = self.prepare_number(v)
                 last = None
+                fpos = norm.source_pos(f.node)
                 for st in ast.walk(f.node):
                     if isinstance(st, ast.Assign) and any(isinstance(t, ast.Name) and t.id == v.id for t in st.targets) \
-                            and st.lineno < c.lineno:
-                        if last is None or st.lineno > last.lineno:
+                            and fpos(st) < fpos(c) and not any(x is c for x in ast.walk(st)):
+                        if last is None or fpos(st) > fpos(last):
                             last = st
-                ok = last is not None and norm.canon(last.value) == "self.prepare_number(%s)" % v.id
+                ok = last is not None and isinstance(last.value, ast.Call) and norm.canon(last.value.func) == "self.prepare_number" \
+                    and len(last.value.args) == 1
             ctx.ob(f, ok, "to_sortable(..., %s) encodes a value returned by prepare_number" % norm.canon(v), loc=ctx.nodeloc(f, c))
     if n < 2:
         raise AnalysisError("only %d to_sortable call sites in fields.py" % n)
@@ -263,7 +265,7 @@ def c13_r3(ctx):
     bounds = [a_ for c in norm.calls_in(cq.node) if norm.call_name(c) in ("Term", "TermRange") for a_ in c.args[1:3]]
     enc_all = all(any(norm.call_name(x) == "sortable_to_bytes" or (isinstance(x.func, ast.Name) and x.func.id in cal)
                       for x in norm.calls_in(norm.inline_defs(b_, cq.node))) for b_ in bounds)
-    ctx.ob(cq, len(stb) >= 3 and enc_all and all(s_ == "field.sortable_to_bytes" for s_ in stb),
+    ctx.ob(cq, len(stb) >= 1 and len(bounds) >= 3 and enc_all and all(s_ == "field.sortable_to_bytes" for s_ in stb),
            "bounds are encoded with the field's sortable_to_bytes", detail=str(stb))
     # prepare_number on both bounds
     pn = [c for c in norm.calls_in(cq.node) if norm.call_name(c) == "prepare_number"]
@@ -281,8 +283,9 @@ def c13_r3(ctx):
     ctx.ob(tr, ok, "an exclusive start adds 1 and an exclusive end subtracts 1, after conversion to the sortable value", detail=str(adj))
     order_ok = True
     for nm in ("start", "end"):
-        conv = [st.lineno for st in ast.walk(tr.node) if isinstance(st, ast.Assign) and norm.canon(st.targets[0]) == nm and "to_sortable" in norm.canon(st.value)]
-        aug = [st.lineno for st in ast.walk(tr.node) if isinstance(st, ast.AugAssign) and norm.canon(st.target) == nm]
+        tpos = norm.source_pos(tr.node)
+        conv = [tpos(st) for st in ast.walk(tr.node) if isinstance(st, ast.Assign) and norm.canon(st.targets[0]) == nm and "to_sortable" in norm.canon(st.value)]
+        aug = [tpos(st) for st in ast.walk(tr.node) if isinstance(st, ast.AugAssign) and norm.canon(st.target) == nm]
         order_ok = order_ok and bool(conv) and bool(aug) and max(conv) < min(aug)
     ctx.ob(tr, order_ok, "the +-1 adjustment happens on the converted (sortable) value")
     dflt = [norm.canon(st.value) for st in ast.walk(tr.node) if isinstance(st, ast.Assign) and norm.canon(st.targets[0]) == "end" and "to_sortable" not in norm.canon(st.value)]
